@@ -26,10 +26,10 @@ for p in props:
         tech, text, note, ref = CLAIMED[i]
         checks.append({
             "property_id": i,
-            "quick_cmd": "/venv/bin/python harness/check.py %s --tier quick" % i,
-            "thorough_cmd": "/venv/bin/python harness/check.py %s --tier thorough" % i,
+            "quick_cmd": "cd /verif && /venv/bin/python harness/check.py %s --tier quick" % i,
+            "thorough_cmd": "cd /verif && /venv/bin/python harness/check.py %s --tier thorough" % i,
             "evidence_file": "/verif/evidence/%s.json" % i,
-            "replay_cmd_template": "/venv/bin/python harness/check.py %s --replay {path}" % i,
+            "replay_cmd_template": "cd /verif && /venv/bin/python harness/check.py %s --replay {path}" % i,
             "engine": "coq-model+correspondence",
             "level_claimed": {"category": "proof", "text": text, "design_ref": ref},
             "level_note": note,
